@@ -1,7 +1,8 @@
 // @gv-module parent=gneiss-mqtt/src/decode.rs name=gv_decode pkg=gneiss-mqtt
 //
 // Child module of decode.rs. Property C03 (inbound decoding faithful, chunking-invariant, robust), C11 (never a panic).
-use super::{Decoder, DecoderState, DecoderDirective, DecodingContext, DecodeVliResult, decode_vli};
+use super::{Decoder, DecoderState, DecoderDirective, DecodingContext, DecodeVliResult, decode_vli, decode_u16, decode_optional_u16, decode_optional_u32,
+    decode_optional_u8_as_bool, decode_length_prefixed_string, decode_optional_length_prefixed_string, decode_optional_length_prefixed_bytes, decode_user_property};
 use crate::mqtt::{MqttPacket, ProtocolVersion, PingrespPacket, ConnectReasonCode, PubackReasonCode, PubrecReasonCode, PubrelReasonCode,
     PubcompReasonCode, SubackReasonCode, UnsubackReasonCode, DisconnectReasonCode, QualityOfService, UserProperty,
     convert_311_encoding_to_connect_reason_code, convert_311_encoding_to_suback_reason_code};
@@ -446,6 +447,123 @@ fn c03_body_connack311() {
     assert!(r.is_ok() == expect, "gv: a 3.1.1 CONNACK is accepted iff flags are 0/1 and the return code is 0..5");
     if let Ok(p) = &r { match &**p { MqttPacket::Connack(c) => { assert!(c.session_present == (body[0] == 1)); }, _ => assert!(false) } }
     std::mem::forget(r);
+}
+
+// ------------------------------------------------------------------------------------------------
+// H2b primitive readers on hostile input: bounds-checked, duplicate detection, never a panic
+// ------------------------------------------------------------------------------------------------
+
+fn be16(b: &[u8]) -> usize { ((b[0] as usize) << 8) | b[1] as usize }
+
+// @gv props=C03,C11 tier=quick required=yes fns=decode_optional_length_prefixed_bytes
+// @gv bounds="binary-data property reader on 0..6 symbolic bytes (length symbolic), value slot empty or already filled (duplicate)"
+#[kani::proof]
+#[kani::unwind(9)]
+#[kani::stub(std::fmt::format, stub_format)]
+fn c03_reader_binary() {
+    let buf: [u8; 6] = kani::any();
+    let n: usize = kani::any();
+    kani::assume(n <= 6);
+    let dup: bool = kani::any();
+    let mut value: Option<Vec<u8>> = if dup { Some(Vec::new()) } else { None };
+    let r = decode_optional_length_prefixed_bytes(&buf[..n], &mut value);
+    let fits = n >= 2 && be16(&buf) <= n - 2;
+    kani::cover!(n >= 2 && be16(&buf) == n - 1, "declared length overstates the remaining bytes by one");
+    kani::cover!(fits && !dup && be16(&buf) == 4, "whole remainder consumed");
+    // truncated or duplicated -> error (never a panic); otherwise exactly the declared bytes, rest returned
+    assert!(r.is_ok() == (fits && !dup), "gv: a binary property is accepted iff its declared length fits and it is not a duplicate");
+    if let Ok(rest) = &r {
+        let len = be16(&buf);
+        assert!(rest.len() == n - 2 - len);
+        let v = value.as_ref().unwrap();
+        assert!(v.len() == len);
+        let mut i = 0;
+        while i < 4 { if i < len { assert!(v[i] == buf[2 + i]); } i += 1; }
+    }
+    std::mem::forget(r); std::mem::forget(value);
+}
+
+// @gv props=C03,C11 tier=quick required=yes fns=decode_optional_length_prefixed_string,decode_length_prefixed_string
+// @gv bounds="UTF-8 string readers on 0..6 symbolic ASCII bytes (length symbolic), optional slot empty or already filled"
+#[kani::proof]
+#[kani::unwind(9)]
+#[kani::stub(std::fmt::format, stub_format)]
+fn c03_reader_string() {
+    let buf: [u8; 6] = kani::any();
+    kani::assume(buf[2] < 0x80 && buf[3] < 0x80 && buf[4] < 0x80 && buf[5] < 0x80);
+    let n: usize = kani::any();
+    kani::assume(n <= 6);
+    let dup: bool = kani::any();
+    let mut value: Option<String> = if dup { Some(String::new()) } else { None };
+    let r = decode_optional_length_prefixed_string(&buf[..n], &mut value);
+    let fits = n >= 2 && be16(&buf) <= n - 2;
+    assert!(r.is_ok() == (fits && !dup), "gv: a string property is accepted iff its declared length fits and it is not a duplicate");
+    if let Ok(rest) = &r { assert!(rest.len() == n - 2 - be16(&buf) && value.as_ref().unwrap().len() == be16(&buf)); }
+    let mut plain = String::new();
+    let r2 = decode_length_prefixed_string(&buf[..n], &mut plain);
+    assert!(r2.is_ok() == fits);
+    if let Ok(rest) = &r2 { assert!(rest.len() == n - 2 - be16(&buf) && plain.len() == be16(&buf)); if plain.len() > 0 { assert!(plain.as_bytes()[0] == buf[2]); } }
+    std::mem::forget(r); std::mem::forget(r2); std::mem::forget(value); std::mem::forget(plain);
+}
+
+// @gv props=C03,C11 tier=quick required=yes fns=decode_u16,decode_optional_u16,decode_optional_u32,decode_optional_u8_as_bool
+// @gv bounds="fixed-width readers on 0..5 symbolic bytes (length symbolic), optional slots empty or already filled"
+#[kani::proof]
+#[kani::unwind(8)]
+#[kani::stub(std::fmt::format, stub_format)]
+fn c03_reader_integers() {
+    let buf: [u8; 5] = kani::any();
+    let n: usize = kani::any();
+    kani::assume(n <= 5);
+    let dup: bool = kani::any();
+    let mut a: u16 = 0;
+    let r1 = decode_u16(&buf[..n], &mut a);
+    assert!(r1.is_ok() == (n >= 2));
+    if let Ok(rest) = &r1 { assert!(a as usize == be16(&buf) && rest.len() == n - 2); }
+    let mut b: Option<u16> = if dup { Some(7) } else { None };
+    let r2 = decode_optional_u16(&buf[..n], &mut b);
+    assert!(r2.is_ok() == (n >= 2 && !dup));
+    if r2.is_ok() { assert!(b == Some(be16(&buf) as u16)); }
+    let mut c: Option<u32> = if dup { Some(7) } else { None };
+    let r3 = decode_optional_u32(&buf[..n], &mut c);
+    assert!(r3.is_ok() == (n >= 4 && !dup));
+    if r3.is_ok() { assert!(c == Some(((buf[0] as u32) << 24) | ((buf[1] as u32) << 16) | ((buf[2] as u32) << 8) | buf[3] as u32)); }
+    let mut d: Option<bool> = if dup { Some(true) } else { None };
+    let r4 = decode_optional_u8_as_bool(&buf[..n], &mut d);
+    // MQTT5 byte-valued flags: only 0 and 1 are legal
+    assert!(r4.is_ok() == (n >= 1 && !dup && buf[0] <= 1), "gv: a boolean property is 0 or 1, present once");
+    if r4.is_ok() { assert!(d == Some(buf[0] == 1)); }
+    std::mem::forget(r1); std::mem::forget(r2); std::mem::forget(r3); std::mem::forget(r4);
+}
+
+// @gv props=C03,C11 tier=thorough required=no fns=decode_user_property
+// @gv bounds="user-property reader on 0..7 symbolic ASCII bytes (length symbolic)"
+// @gv timeout=1800 mem=16
+#[kani::proof]
+#[kani::unwind(10)]
+#[kani::stub(std::fmt::format, stub_format)]
+fn c03_reader_user_property() {
+    let buf: [u8; 7] = kani::any();
+    kani::assume(buf[2] < 0x80 && buf[3] < 0x80 && buf[4] < 0x80 && buf[5] < 0x80 && buf[6] < 0x80);
+    let n: usize = kani::any();
+    kani::assume(n <= 7);
+    let mut props: Option<Vec<UserProperty>> = None;
+    let r = decode_user_property(&buf[..n], &mut props);
+    // name: 2-byte length + bytes; value: 2-byte length + bytes
+    let mut ok = false;
+    let mut rest_len = 0;
+    if n >= 2 {
+        let l1 = be16(&buf);
+        if l1 <= n - 2 && n - 2 - l1 >= 2 {
+            let o = 2 + l1;
+            let l2 = ((buf[o] as usize) << 8) | buf[o + 1] as usize;
+            if l2 <= n - o - 2 { ok = true; rest_len = n - o - 2 - l2; }
+        }
+    }
+    kani::cover!(ok, "complete user property");
+    assert!(r.is_ok() == ok, "gv: a user property is accepted iff both length-prefixed strings fit");
+    if let Ok(rest) = &r { assert!(rest.len() == rest_len && props.as_ref().unwrap().len() == 1); }
+    std::mem::forget(r); std::mem::forget(props);
 }
 
 include!("decode_gen.rs");
